@@ -209,7 +209,7 @@ class AsyncPettingZooVecEnv(PettingZooVecEnv):
                 f"The call to `reset_wait` has timed out after {timeout} second(s)."
             )
 
-        info_data, successes = zip(*[pipe.recv() for pipe in self.parent_pipes])
+        info_data, successes = zip(*self._recv_all())
         self._raise_if_errors(successes)
 
         infos = {}
@@ -278,8 +278,7 @@ class AsyncPettingZooVecEnv(PettingZooVecEnv):
         )
         successes = []
         infos = {}
-        for env_idx, pipe in enumerate(self.parent_pipes):
-            env_step_return, success = pipe.recv()
+        for env_idx, (env_step_return, success) in enumerate(self._recv_all()):
             successes.append(success)
             if success:
                 for agent in self.agents:
@@ -368,7 +367,7 @@ class AsyncPettingZooVecEnv(PettingZooVecEnv):
                 f"The call to `call_wait` has timed out after {timeout} second(s)."
             )
 
-        results, successes = zip(*[pipe.recv() for pipe in self.parent_pipes])
+        results, successes = zip(*self._recv_all())
         self._raise_if_errors(successes)
         self._state = AsyncState.DEFAULT
         return results
@@ -409,8 +408,26 @@ class AsyncPettingZooVecEnv(PettingZooVecEnv):
 
         for pipe, value in zip(self.parent_pipes, values):
             pipe.send(("_setattr", (name, value)))
-        _, successes = zip(*[pipe.recv() for pipe in self.parent_pipes])
+        _, successes = zip(*self._recv_all())
         self._raise_if_errors(successes)
+
+    def _recv_all(self) -> List[Tuple[Any, bool]]:
+        """Receive one reply from every worker. A worker that died without
+        replying ends the pending call with an EOFError once the replies of the
+        other workers have been read."""
+        replies, dead = [], []
+        for index, pipe in enumerate(self.parent_pipes):
+            try:
+                replies.append(pipe.recv())
+            except (EOFError, OSError):
+                dead.append(index)
+                pipe.close()
+                self.parent_pipes[index] = None
+                replies.append((None, True))
+        if dead:
+            self._state = AsyncState.DEFAULT
+            raise EOFError(f"Worker(s) {dead} died without replying.")
+        return replies
 
     def close_extras(
         self, timeout: Optional[float] = None, terminate: bool = False
